@@ -376,9 +376,15 @@ def worker_env(M, extra=()):
     def h_update(ex, st, callee, args, fn):
         ev(st, 'updater', (callee.rsplit('::', 1)[1],) + tuple(args[1:]))
         return UNIT
+
+    def h_sleep(ex, st, callee, args, fn):
+        d = val(ex, st, args[0])
+        ev(st, 'sleep', (d,))
+        return UNIT
     return list(extra) + M.common_env(None) + [
         (r'(^|::)clock_gettime_safe$', h_clock), (r'ChronyOperations>::get_tracking$', h_tracking), (r'ChronyOperations>::is_within_grace_period$', h_grace),
-        (r'(^|::)get_phc_error_bound_from_path$', h_phc), (r'ShmUpdater(::<.*>)?::(process_clock_update|process_missing_clock_update)$', h_update)]
+        (r'(^|::)get_phc_error_bound_from_path$', h_phc), (r'ShmUpdater(::<.*>)?::(process_clock_update|process_missing_clock_update)$', h_update),
+        (r'(^|::)thread::sleep$|^sleep$', h_sleep)]
 
 
 def loop_summary(M, fn_name, args, opaque=()):
@@ -515,6 +521,10 @@ class Tables:
             for e in g.events:
                 if e.kind in ('recv', 'recv_timeout'):
                     blocking.add((e.kind, str(z3.simplify(e.args[0].f[0])) if e.kind == 'recv_timeout' and isinstance(e.args[0], Struct) else None))
+                if e.kind == 'sleep':
+                    d_ = e.args[0].f[0] if isinstance(e.args[0], Struct) else None
+                    d_ = z3.simplify(d_) if isinstance(d_, z3.ExprRef) else None
+                    blocking.add(('sleep', d_.as_long() if d_ is not None and z3.is_int_value(d_) else 'symbolic'))
                 if e.kind == 'send':
                     d = z3.simplify(e.args[0].disc())
                     sends.add(d.as_long() if z3.is_int_value(d) else None)
@@ -962,8 +972,16 @@ def run_check(tier, seed):
         det = main_detail.get(k, [])
         ok_pieces &= fact('main loop: on %s it broadcasts ThreadAbort to both workers, then joins both, then returns' % ({TM: 'ThreadTerminate', PN: 'ThreadPanic'}.get(k, 'a closed mailbox')),
                           main_on.get(k) == {'exit'} and det and all(tg == frozenset({cP, cW}) and j == 2 and o for tg, j, o in det))
+    try:
+        chf = channels_facts(M)
+        ck.cov['pieces']['channel_web'] = chf
+        for nm_, okv in chf.items():
+            ok_pieces &= fact('channel web: ' + nm_, okv)
+    except EngineError as e:
+        ck.inconclusive.append('channel web (channels.rs) not executable: %s' % e)
     sleep_ns = ef.get('poller_sleep_ns')
-    blocking_ok = all(b[0] in ('recv', 'recv_timeout') for b in P['blocking'] + W['blocking'])
+    # a worker may wait in a mailbox receive (a message wakes it) or sleep for a short, constant time
+    blocking_ok = all(b[0] in ('recv', 'recv_timeout') or (b[0] == 'sleep' and isinstance(b[1], int) and b[1] <= 2 * NS) for b in P['blocking'] + W['blocking'])
     ok_pieces &= fact('workers block only in mailbox receives (which a message wakes); the poller\'s receive time-out is %s ns' % sleep_ns, blocking_ok and sleep_ns is not None and sleep_ns <= 2 * NS)
     ck.absorb(pr)
     # ---- time a worker step can be held up besides its (interruptible) mailbox receive and the chronyd query
@@ -1203,3 +1221,131 @@ def blocking_budget(M, stats):
             res.append((name, o.state.pcond(), total, ex))
     mono = [L >= 0, now[0] >= L] + [now[i + 1] >= now[i] for i in range(len(now) - 1)] + [now[-1] < 2 ** 62]
     return res, mono, dict(L=L, now=now)
+
+
+# --------------------------------------------------------------------------------------------- the channel web (channels.rs)
+class PyMap:
+    """a HashMap with concrete keys (channel ids) and symbolic values"""
+    __slots__ = ('items',)
+
+    def __init__(self, items=()):
+        self.items = list(items)
+
+    def __repr__(self):
+        return 'PyMap(%r)' % [k for k, v in self.items]
+
+
+def channels_facts(M):
+    """new_channel_web / MailBox::get_mailbox / DispatchBox::send executed over a HashMap model: every id gets one channel whose
+    receiving end is filed under that id in the MailBox and whose sending end under the same id in the DispatchBox; send() uses the
+    sender filed under the id it is given.  Returns dict of facts (all must be True for the abstract channel web of the composition)."""
+    prog = M.prog
+    nchan = [0]
+    sends = []
+
+    def key_of(ex, st, v):
+        v = val(ex, st, v)
+        d = z3.simplify(v.disc()) if isinstance(v, Enum) else None
+        if d is None or not z3.is_int_value(d):
+            raise EngineError('channel id is not a constant')
+        return d.as_long()
+
+    def h_with_capacity(ex, st, callee, args, fn):
+        return PyMap()
+
+    def h_len(ex, st, callee, args, fn):
+        v = val(ex, st, args[0])
+        return z3.IntVal(len(v.items)) if isinstance(v, (PyVec, PyMap)) else z3.IntVal(0)
+
+    def h_into_iter(ex, st, callee, args, fn):
+        v = val(ex, st, args[0])
+        return PyVec(v.items, 0)
+
+    def h_next(ex, st, callee, args, fn):
+        r = args[0]; it = val(ex, st, r)
+        if not isinstance(it, PyVec) or not isinstance(r, Ref):
+            raise EngineError('Iterator::next on %r' % (it,))
+        if it.pos >= len(it.items):
+            return Enum(0, {'None': UNIT})
+        ex.store(st, r.frame, (r.local, list(r.path)), PyVec(it.items, it.pos + 1))
+        return Enum(1, {'Some': Struct([it.items[it.pos]]), 'None': UNIT})
+
+    def h_channel(ex, st, callee, args, fn):
+        nchan[0] += 1
+        return Struct([Struct([Opaque('sender'), z3.IntVal(nchan[0])]), Struct([Opaque('receiver'), z3.IntVal(nchan[0])])])
+
+    def h_clone(ex, st, callee, args, fn):
+        return val(ex, st, args[0])
+
+    def h_insert(ex, st, callee, args, fn):
+        r = args[0]; mp = val(ex, st, r)
+        k = key_of(ex, st, args[1])
+        old = [v for kk, v in mp.items if kk == k]
+        ex.store(st, r.frame, (r.local, list(r.path)), PyMap([(kk, v) for kk, v in mp.items if kk != k] + [(k, args[2])]))
+        return Enum(1, {'Some': Struct([old[0]]), 'None': UNIT}) if old else Enum(0, {'None': UNIT})
+
+    def h_get(ex, st, callee, args, fn):
+        mp = val(ex, st, args[0]); k = key_of(ex, st, args[1])
+        hit = [v for kk, v in mp.items if kk == k]
+        if not hit:
+            return Enum(0, {'None': UNIT})
+        M.n += 1
+        st.mem[('mapv', M.n)] = hit[0]
+        return Enum(1, {'Some': Struct([Ref('mapv', M.n)]), 'None': UNIT})
+
+    def h_remove(ex, st, callee, args, fn):
+        r = args[0]; mp = val(ex, st, r); k = key_of(ex, st, args[1])
+        hit = [v for kk, v in mp.items if kk == k]
+        ex.store(st, r.frame, (r.local, list(r.path)), PyMap([(kk, v) for kk, v in mp.items if kk != k]))
+        return Enum(1, {'Some': Struct([hit[0]]), 'None': UNIT}) if hit else Enum(0, {'None': UNIT})
+
+    def h_sender_send(ex, st, callee, args, fn):
+        sd = val(ex, st, args[0])
+        cid = z3.simplify(sd.f[1]).as_long() if isinstance(sd, Struct) and len(sd.f) == 2 else None
+        sends.append(cid)
+        st.trace = st.trace + (Event('chan_send', (cid,), None),)
+        return Enum(0, {'Ok': Struct([UNIT])})
+    env = [(r'HashMap::<.*>::with_capacity$|HashMap::<.*>::new$', h_with_capacity), (r'Vec::<\w+>::len$', h_len), (r'as IntoIterator>::into_iter$', h_into_iter),
+           (r'IntoIter<\w+> as Iterator>::next$', h_next), (r'mpsc::channel::<.*>$|(^|::)channel::<\w+>$', h_channel), (r'^<\w+ as Clone>::clone$', h_clone),
+           (r'HashMap::<.*>::insert$', h_insert), (r'HashMap::<.*>::get::<.*>$|HashMap::<.*>::get$', h_get), (r'HashMap::<.*>::remove::<.*>$|HashMap::<.*>::remove$', h_remove),
+           (r'mpsc::Sender::<.*>::send$|Sender::<\w+>::send$', h_sender_send)]
+    ex = Exec(prog, env=env)
+    ex.loop_bound = 8
+    facts = {}
+    ids = [M.chan['ClockErrorBoundPoller'], M.chan['MainThread'], M.chan['ShmWriter']]
+    fn = prog.find1('new_channel_web', crate='clock_bound_d')
+    outs = [o for o in ex.run(fn, [PyVec([Enum(d, {}) for d in ids])], State()) if o.kind == 'return']
+    if len(outs) != 1:
+        raise EngineError('new_channel_web: %d returning paths' % len(outs))
+    web = outs[0].value
+    mb, db = web.f[0], web.f[1]
+    mbm = mb.f[0] if isinstance(mb, Struct) else mb; dbm = db.f[0] if isinstance(db, Struct) else db
+    if not isinstance(mbm, PyMap) or not isinstance(dbm, PyMap):
+        raise EngineError('new_channel_web does not return two maps')
+    ch = lambda v: z3.simplify(v.f[1]).as_long() if isinstance(v, Struct) and len(v.f) == 2 and isinstance(v.f[1], z3.ExprRef) else None
+    rcv = {k: ch(v) for k, v in mbm.items}; snd = {k: ch(v) for k, v in dbm.items}
+    facts['every id has a mailbox and a sender'] = sorted(rcv) == sorted(ids) and sorted(snd) == sorted(ids)
+    facts['the two ends filed under an id belong to the same channel'] = all(rcv.get(k) is not None and rcv.get(k) == snd.get(k) for k in ids)
+    facts['different ids have different channels'] = len({rcv.get(k) for k in ids}) == len(ids)
+    # DispatchBox::send
+    f_send = [f for f in prog.find('send', crate='clock_bound_d') if 'channels.rs' in f.name and len(f.params) == 3]
+    ok_send = True
+    for k in ids:
+        del sends[:]
+        st = State(); st.mem[(0, 'db')] = db; st.mem[(0, 'k')] = Enum(k, {})
+        o2 = [o for o in ex.run(f_send[0], [Ref(0, 'db'), Ref(0, 'k'), Enum(M.msg['ThreadAbort'], {'ThreadAbort': UNIT})], st) if o.kind == 'return'] if len(f_send) == 1 else []
+        ok_send &= len(o2) == 1 and sends == [snd.get(k)]
+    facts['DispatchBox::send uses the sender filed under the id it is given'] = bool(ok_send)
+    # MailBox::get_mailbox
+    f_get = [f for f in prog.find('get_mailbox', crate='clock_bound_d')]
+    ok_get = len(f_get) == 1
+    if ok_get:
+        st = State(); st.mem[(0, 'mb')] = mb
+        for k in ids:
+            st.mem[(0, 'k')] = Enum(k, {})
+            o3 = [o for o in ex.run(f_get[0], [Ref(0, 'mb'), Ref(0, 'k')], st) if o.kind == 'return']
+            if len(o3) != 1 or 'Some' not in o3[0].value.p or ch(o3[0].value.p['Some'].f[0]) != rcv.get(k):
+                ok_get = False; break
+            st = o3[0].state
+    facts['MailBox::get_mailbox hands out the receiving end filed under the id'] = bool(ok_get)
+    return facts
